@@ -96,7 +96,9 @@ pub fn monitors<P: Payload>(ctx: &Ctx, st: &mut State<P>, info: &StepInfo<P>, he
         let acyc = mon::c02_acyclic(&st.arena);
         let ok = acyc.is_ok();
         obs += push(&mut fs, acyc).unwrap_or(0);
-        if heavy {
+        // library iterators are only started on a structure whose raw link walks all end (the cycle is
+        // already reported then; an iterator constructor or a filtering next() may loop on it)
+        if heavy && ok {
             // bounded library iterators; start nodes straight from the arena
             let starts = match guarded(|| mon::raw_live_ids(&st.arena)) {
                 Ok(s) => s,
@@ -324,6 +326,61 @@ fn shape_maxima<P: Payload>(st: &State<P>, cov: &mut Cov) {
     cov.maxi("top_level_chain_length", chain as u64);
 }
 
+/// "A copy behaves like the original": `clone_from` the current arena into a destination that has a
+/// history of its own (a scratch arena with pending free slots, or an older state of this very
+/// history - same slots and stamps, different links), then run this property's monitors on the copy.
+/// Only findings that name the property are returned; the main history is not affected.
+pub fn copy_probe<P: Payload>(ctx: &Ctx, st: &State<P>, old: Option<&Arena<P>>, rng: &mut Rng, cov: &mut Cov, tok: bool) -> Vec<Finding> {
+    let built = guarded(|| {
+        let mut d: Arena<P> = match old {
+            Some(o) if rng.chance(1, 2) => o.clone(),
+            _ => {
+                let mut d: Arena<P> = Arena::new();
+                let k = rng.range(1, 2 * st.model.slot_count().max(2));
+                let mut ids = Vec::new();
+                for i in 0..k {
+                    ids.push(d.new_node(P::make(u64::MAX - 9, i as u64)));
+                }
+                let mut nrem = rng.below(k + 1);
+                while nrem > 0 && !ids.is_empty() {
+                    let i = rng.below(ids.len());
+                    ids.swap_remove(i).remove(&mut d);
+                    nrem -= 1;
+                }
+                d
+            }
+        };
+        d.clone_from(&st.arena);
+        d
+    });
+    let d = match built {
+        Ok(d) => d,
+        Err(p) => {
+            return if ctx.is("C13") { vec![Finding::new(&["C13"], "clone_from-copy/panic".into(), p)] } else { Vec::new() };
+        }
+    };
+    let mut st2 = State {
+        arena: d,
+        model: st.model.clone(),
+        issued: st.issued.clone(),
+        steps: st.steps,
+    };
+    let dummy = st2.step(&Op::Reserve(0));
+    let mut fs = dummy.findings.clone();
+    let mut scratch = Cov::default();
+    fs.extend(monitors(ctx, &mut st2, &dummy, true, rng, &mut scratch, tok));
+    cov.bump("clone_from_copies_monitored");
+    cov.observations += scratch.observations;
+    fs.into_iter()
+        .filter(|f| ctx.owns(f))
+        .map(|mut f| {
+            f.sig = format!("clone_from-copy/{}", f.sig);
+            f.detail = format!("on a copy made with clone_from into a used arena: {}", f.detail);
+            f
+        })
+        .collect()
+}
+
 pub struct HistOut {
     pub violation: Option<Violation>,
     pub digest: Digest,
@@ -406,6 +463,7 @@ pub fn run_w1<P: Payload>(ctx: &Ctx, cfg: &W1Cfg, index: u64, cov: &mut Cov, hoo
     let raw_prop = ctx.is("C01") || ctx.is("C02") || ctx.is("C10");
     let mut blind = false;
     let mut blind_steps = 0usize;
+    let mut old_arena: Option<Arena<P>> = None;
     for step in 0..len {
         let op = gen.next_op(&mut rng, &st.model);
         ops.push(op.clone());
@@ -427,6 +485,12 @@ pub fn run_w1<P: Payload>(ctx: &Ctx, cfg: &W1Cfg, index: u64, cov: &mut Cov, hoo
         fs.extend(monitors(ctx, &mut st, &info, heavy, &mut rng, cov, cfg.tok));
         if !info.diverged {
             fs.extend(hook.after_step(ctx, &mut st, &info, heavy, &mut rng, cov));
+        }
+        if !info.diverged && !blind && heavy && rng.chance(1, 10) && !matches!(ctx.prop, "C03" | "C04" | "C05" | "C14" | "C16" | "C17") {
+            fs.extend(copy_probe(ctx, &st, old_arena.as_ref(), &mut rng, cov, cfg.tok));
+        }
+        if step % 6 == 0 && !info.diverged {
+            old_arena = Some(st.arena.clone());
         }
         if blind {
             // only this property's raw monitors are judged; the model is merely an argument source now
@@ -1124,6 +1188,134 @@ pub fn run_w3_tok(ctx: &Ctx, cycles: u64, cov: &mut Cov) -> Option<Violation> {
     cov.observations += evals;
     cov.add("tok_churn_cycles", cycles);
     None
+}
+
+// ======================================================================= W6
+
+/// Very deep trees (a path of `depth` nodes with a few side branches) on a thread with an ordinary
+/// 2 MiB stack.  No model and no recursion on the harness side: expected values are arithmetic.
+/// A stack overflow kills the process; the driver runs this in a child process and treats death by
+/// signal as the observation "a valid call on a deep tree did not return".
+pub fn run_deep(prop: &'static str, depth: usize) -> Result<u64, (String, String)> {
+    use crate::payload::Plain;
+    use indextree::{NodeEdge, NodeId};
+    macro_rules! bail {
+        ($kind:expr, $($arg:tt)*) => {
+            return Err(($kind.to_string(), format!($($arg)*)))
+        };
+    }
+    let mut a: Arena<Plain> = Arena::new();
+    let p = |t: u64| Plain { tid: t, val: t };
+    let root = a.new_node(p(0));
+    let mut ids: Vec<NodeId> = vec![root];
+    for i in 1..depth {
+        let last = *ids.last().unwrap();
+        // a leaf sibling before the spine child at every 1000th level
+        if i % 1000 == 0 {
+            last.append_value(p(1_000_000 + i as u64), &mut a);
+        }
+        ids.push(last.append_value(p(i as u64), &mut a));
+    }
+    let side = (1..depth).filter(|i| i % 1000 == 0).count();
+    let total = depth + side;
+    let mut obs = 0u64;
+    let deepest = *ids.last().unwrap();
+    // ---- traversals, externally and through internal iteration
+    if matches!(prop, "C09" | "C02" | "C05") {
+        let n = root.descendants(&a).count();
+        if n != total {
+            bail!("descendants-count", "descendants(root).count() = {} on a tree of {} nodes", n, total);
+        }
+        if root.descendants(&a).last() != Some(deepest) {
+            bail!("descendants-last", "descendants(root).last() is not the deepest node");
+        }
+        let mut k = 0usize;
+        for _ in root.descendants(&a) {
+            k += 1;
+        }
+        if k != total {
+            bail!("descendants-loop", "a for loop over descendants(root) saw {} of {} nodes", k, total);
+        }
+        let mut starts = 0usize;
+        root.traverse(&a).for_each(|e| {
+            if let NodeEdge::Start(_) = e {
+                starts += 1
+            }
+        });
+        if starts != total || root.traverse(&a).count() != 2 * total || root.reverse_traverse(&a).count() != 2 * total {
+            bail!("traverse-count", "traverse / reverse_traverse of the deep tree do not have {} edges", 2 * total);
+        }
+        if root.reverse_traverse(&a).last() != Some(NodeEdge::Start(root)) || root.traverse(&a).last() != Some(NodeEdge::End(root)) {
+            bail!("traverse-last", "last edge of traverse / reverse_traverse is wrong");
+        }
+        if deepest.ancestors(&a).count() != depth || deepest.ancestors(&a).last() != Some(root) {
+            bail!("ancestors-count", "ancestors(deepest) does not have {} items ending at the root", depth);
+        }
+        if deepest.predecessors(&a).fold(0usize, |n, _| n + 1) != total {
+            bail!("predecessors-count", "predecessors(deepest) does not visit {} nodes", total);
+        }
+        let mid = ids[depth / 2];
+        if mid.descendants(&a).count() != total - (depth / 2) - (1..=depth / 2).filter(|i| i % 1000 == 0).count() {
+            bail!("descendants-mid", "descendants(mid) has a wrong count");
+        }
+        obs += 12;
+    }
+    // ---- moves at depth (ancestor walks are as long as the path)
+    if matches!(prop, "C03" | "C05" | "C02") {
+        let x = a.new_node(p(5_000_000));
+        if deepest.checked_append(x, &mut a).is_err() || a[x].parent() != Some(deepest) {
+            bail!("deep-append", "append below the deepest node failed");
+        }
+        if deepest.checked_append(root, &mut a).is_ok() {
+            bail!("deep-append-ancestor", "appending the root below its deepest descendant was accepted");
+        }
+        if x.checked_insert_after(ids[depth / 3], &mut a).is_ok() {
+            bail!("deep-insert-ancestor", "an ancestor was accepted as sibling of its deep descendant");
+        }
+        x.remove(&mut a);
+        // move a deep subtree to the top and back
+        let sub = ids[depth / 2];
+        let other = a.new_node(p(5_000_001));
+        other.append(sub, &mut a);
+        if a[sub].parent() != Some(other) || a[ids[depth / 2 - 1]].last_child() == Some(sub) {
+            bail!("deep-move", "moving a deep subtree did not re-home it");
+        }
+        ids[depth / 2 - 1].append(sub, &mut a);
+        other.remove(&mut a);
+        obs += 5;
+    }
+    // ---- removals of deep subtrees
+    if matches!(prop, "C04" | "C05" | "C02" | "C08" | "C12") {
+        let cut = 3 * depth / 4;
+        let before_removed = a.iter().filter(|n| n.is_removed()).count();
+        ids[cut].remove_subtree(&mut a);
+        let removed_now = a.iter().filter(|n| n.is_removed()).count() - before_removed;
+        let expect = (depth - cut) + (cut + 1..depth).filter(|i| i % 1000 == 0).count();
+        if removed_now != expect {
+            bail!("deep-remove_subtree-count", "remove_subtree of a {}-level subtree removed {} nodes, the subtree has {}", depth - cut, removed_now, expect);
+        }
+        if a[ids[cut - 1]].last_child() == Some(ids[cut]) || !ids[cut].is_removed(&a) || !deepest.is_removed(&a) || ids[cut - 1].is_removed(&a) {
+            bail!("deep-remove_subtree-effect", "remove_subtree of a deep subtree left wrong liveness / links");
+        }
+        for i in (cut..depth).step_by(997) {
+            let n = &a[ids[i]];
+            if n.parent().is_some() || n.first_child().is_some() || n.next_sibling().is_some() {
+                bail!("deep-removed-links", "a node removed with the deep subtree still reports links");
+            }
+        }
+        // remove (splice) in the middle of the path, then the whole rest
+        ids[depth / 4].remove(&mut a);
+        if a[ids[depth / 4 + 1]].parent() != Some(ids[depth / 4 - 1]) {
+            bail!("deep-remove-splice", "remove() in the middle of a deep path did not splice the child in");
+        }
+        root.remove_subtree(&mut a);
+        if a.iter().any(|n| !n.is_removed()) {
+            bail!("deep-remove_subtree-root", "after remove_subtree(root) some node is still live");
+        }
+        obs += 6;
+    }
+    drop(a);
+    Ok(obs + 1)
 }
 
 // ------------------------------------------------------------------ replay
